@@ -361,3 +361,53 @@ def shrink(doc, still_fails, budget=400):
                     doc, changed = cand, True
                     break
     return doc
+
+
+# ---------------------------------------------------------------------------------------------
+# deterministic family: unbreakable blocks around the page bottom
+
+def make_doc(page_h, kids, ltr=True):
+    """A document from a list of body children built with `para_box` / `block_box` (ids are assigned here)."""
+    counter = [0]
+
+    def number(box):
+        for kid in box['kids']:
+            number(kid)
+        counter[0] += 1
+        box['id'] = counter[0]
+    body = dict(kind='block', id=0, st=default_style(), kids=kids)
+    root = dict(kind='block', id=0, st=default_style(isRoot=True), kids=[body])
+    number(root)
+    return dict(pageH=Fraction(page_h), ltr=ltr, root=root)
+
+
+def para_box(n, line_h=10, **style):
+    return dict(kind='para', id=0, n=n, lineH=Fraction(line_h), kids=[],
+                st=default_style(**{k: (Fraction(v) if isinstance(v, int) and not isinstance(v, bool) and k not in (
+                    'orphans', 'widows') else v) for k, v in style.items()}))
+
+
+def block_box(kids=(), **style):
+    return dict(kind='block', id=0, kids=list(kids),
+                st=default_style(**{k: (Fraction(v) if isinstance(v, int) and not isinstance(v, bool) and k not in (
+                    'orphans', 'widows') else v) for k, v in style.items()}))
+
+
+def edge_docs():
+    """Blocks that cannot be fragmented (fixed height with or without lines, empty blocks with padding / border)
+    placed after k lines on a 100px page so that their margin, border, padding and content edges fall on every side
+    of the page bottom; alone in the body, inside a wrapper, and as first content of the page (k = 0)."""
+    import itertools
+    for k, height, pt, bt, pb, mt in itertools.product((0, 6, 7, 8), (0, 10, 30), (0, 4, 8), (0, 2), (0, 4), (0, 5)):
+        if not (height or pt or bt or pb):
+            continue
+        for shape in ('plain', 'wrapped', 'lines'):
+            if shape == 'lines' and not height:
+                continue
+            if shape == 'lines':
+                target = para_box(2, height=height, pt=pt, bt=bt, pb=pb, mt=mt)
+            else:
+                target = block_box(height=height if height else 'auto', pt=pt, bt=bt, pb=pb, mt=mt)
+            middle = block_box([target], pb=2) if shape == 'wrapped' else target
+            kids = ([para_box(k)] if k else []) + [middle, para_box(2)]
+            yield f'edge-k{k}-h{height}-pt{pt}-bt{bt}-pb{pb}-mt{mt}-{shape}', make_doc(100, kids)
